@@ -331,9 +331,16 @@ class ExcelModel:
         done = set(self.cells).difference(self.references)
         if stack is None:
             pred, dfl = self.dsp.dmap.pred, self.dsp.default_values
+            nodes = self.dsp.nodes
+
+            def _inverse(k):  # Links that only hand supplied values down.
+                f = nodes[k].get('function')
+                return f is sh.bypass or isinstance(f, InvRangesAssembler)
+
             stack = {  # Nodes that nothing defines yet.
                 k for k in self.dsp.data_nodes
-                if k not in self.references and not pred[k] and k not in dfl
+                if k not in self.references and k not in dfl and
+                all(map(_inverse, pred[k]))
             }
             stack = stack.difference(done)
         stack = sorted(stack)
